@@ -78,6 +78,7 @@ type simNode struct {
 	inc        int // incarnation
 	alive      bool
 	dead       map[int]bool // incarnations that crashed
+	gone       map[int]bool // ... and whose teardown (raft groups stopped, database closed) is complete
 	server     *anndb.Server
 	parts      *anndb.VerifParts
 	svcData    pb.DataManagerServer
@@ -154,8 +155,10 @@ type Sim struct {
 	longYields                              int
 	yieldWindow, deepInWindow, longInWindow int
 	dbClosed                                map[*badger.DB]bool
-	trackItems                              bool            // record which item changes the applied partition entries carry
-	appliedItems                            map[string]bool // "kind/item id/version" of every item change some replica applied
+	inflight                                map[*simCall]*simNode // calls a node is executing right now
+	clientOps                               []*clientOp           // client requests that have not returned yet
+	trackItems                              bool                  // record which item changes the applied partition entries carry
+	appliedItems                            map[string]bool       // "kind/item id/version" of every item change some replica applied
 	rfault                                  *simrt.Rand
 	ryield                                  *simrt.Rand
 	nodes                                   []*simNode
@@ -327,6 +330,7 @@ func newSim(cfg W3Cfg, out *Outcome, wantLog bool) *Sim {
 	s.rburst = root.Split("burst")
 	s.appliedItems = map[string]bool{}
 	s.dbClosed = map[*badger.DB]bool{}
+	s.inflight = map[*simCall]*simNode{}
 	s.rfault = root.Split("fault")
 	s.ryield = root.Split("yield")
 	seedRuntime(cfg.Seed)
@@ -350,6 +354,26 @@ func newSim(cfg W3Cfg, out *Outcome, wantLog bool) *Sim {
 		if ytraceOn { // development aid: the interleaving of all yield points, for diffing two executions
 			ytrace = append(ytrace, fmt.Sprintf("%d %d s%d t=%v", runtimeVerifGetTag(), goid(), site, time.Since(s.t0)))
 		}
+		tag := runtimeVerifGetTag()
+		if tag == 0 {
+			// the driver itself, reading the system through its own code (a log store opened
+			// by a monitor): observing takes no simulated time and is never descheduled
+			return
+		}
+		gone := func() bool {
+			// (only once the incarnation has been taken down completely: until then the
+			// teardown itself needs some of its goroutines, e.g. the raft node's)
+			n := s.byId[tag/1000]
+			return n != nil && n.gone[int(tag%1000)]
+		}
+		if gone() {
+			s.park() // a goroutine of a crashed incarnation: the process is gone, it runs no further
+		}
+		defer func() {
+			if gone() {
+				s.park() // ... also when the crash happened while it was not scheduled
+			}
+		}()
 		if yp > 0 || deep > 0 {
 			// a function of the seed, the goroutine's label and its own draw count: no shared stream
 			z := mix64(yseed ^ runtimeVerifGetTag()*0x9e3779b97f4a7c15 ^ runtimeVerifNextCount()<<20 ^ uint64(site))
@@ -563,7 +587,7 @@ func (s *Sim) close() {
 
 func (s *Sim) addNode(join []int) *simNode {
 	i := len(s.nodes) + 1
-	n := &simNode{idx: i, id: uint64(i), port: fmt.Sprintf("%d", 17000+i), dead: map[int]bool{}, joinAct: -1}
+	n := &simNode{idx: i, id: uint64(i), port: fmt.Sprintf("%d", 17000+i), dead: map[int]bool{}, gone: map[int]bool{}, joinAct: -1}
 	n.addr = ":" + n.port
 	n.dir = filepath.Join(s.baseDir, fmt.Sprintf("node%d", i))
 	os.MkdirAll(n.dir, 0755)
@@ -741,6 +765,39 @@ func (s *Sim) stopNode(n *simNode, crash bool) {
 	}
 	n.server.VerifForget()
 	n.parts = nil
+	if !s.closing {
+		n.gone[n.inc] = true
+	}
+	// client requests that this incarnation was serving never get an answer
+	live := s.clientOps[:0]
+	for _, op := range s.clientOps {
+		if op.done {
+			continue
+		}
+		if op.node == n.idx && op.nodeInc == n.inc {
+			s.seq++
+			op.ret = s.seq
+			op.err, op.done, op.lost = status.Error(codes.Unavailable, "node died before answering"), true, true
+			s.logf("client n%d %s -> lost (the node went down)", n.idx, op.name)
+			continue
+		}
+		live = append(live, op)
+	}
+	s.clientOps = live
+	// calls that were executing on the process that is gone never answer
+	var cut []*simCall
+	for c, t := range s.inflight {
+		if t == n {
+			cut = append(cut, c)
+		}
+	}
+	sort.Slice(cut, func(i, j int) bool { return cut[i].seq < cut[j].seq })
+	for _, c := range cut {
+		delete(s.inflight, c)
+		if c.dupOf == nil {
+			s.lost(c)
+		}
+	}
 	s.logf("n%d down (crash=%v)", n.idx, crash)
 	if crash {
 		s.out.Stat("fault_crash", 1)
@@ -1194,11 +1251,16 @@ func (s *Sim) deliver(c *simCall, tgt *simNode, inc int, isRaft bool) {
 		ctx, cancel = context.WithDeadline(ctx, c.deadline)
 	}
 	c.executed = true
+	s.inflight[c] = tgt
 	go func() {
 		defer cancel()
 		runtimeVerifSetTag(tgt.id*1000 + uint64(inc))
 		resp, err := s.serve(tgt, ctx, c.method, c.req, c.reqType)
 		s.post(func() {
+			if _, ok := s.inflight[c]; !ok {
+				return // the serving process went down while the call was executing: already failed
+			}
+			delete(s.inflight, c)
 			if c.dupOf != nil {
 				return
 			}
@@ -1503,6 +1565,7 @@ func (s *Sim) client(n *simNode, name string, timeout time.Duration, fn func(ctx
 		return op
 	}
 	s.logf("client n%d %s", n.idx, name)
+	s.clientOps = append(s.clientOps, op)
 	go func() {
 		runtimeVerifSetTag(n.id*1000 + uint64(op.nodeInc))
 		simrt.Y(0)
@@ -1514,6 +1577,9 @@ func (s *Sim) client(n *simNode, name string, timeout time.Duration, fn func(ctx
 			res, err = fn(ctx, n)
 		}()
 		s.post(func() {
+			if op.done {
+				return // the node went down while the request was being served: already accounted for
+			}
 			s.seq++
 			op.ret = s.seq
 			op.res, op.err, op.done = res, err, true
